@@ -135,7 +135,16 @@ public:
     }
   }
 
-  void prepend(const Buffer& data) {prepend(data, data.size());}
+  void prepend(const Buffer& data)
+  {
+    if(&data == this)
+    { // the bytes to prepend must not be taken from storage that prepend shifts or releases
+      Buffer copy(data);
+      prepend(copy, copy.size());
+    }
+    else
+      prepend(data, data.size());
+  }
 
   void append(const byte* data, usize size)
   {
